@@ -1,4 +1,5 @@
 import Dyce.HistOpsProofs
+import Dyce.EqProofs
 /-!
 # C18 — Deck-style draws and count bookkeeping are exact
 
@@ -22,6 +23,7 @@ a mapping its amounts (possibly zero or negative).
 | any sequence of draws (rejected ones leave the deck alone) conserves cards | `C18_draw_sequence` |
 | `draw()` = `draw(roll())`, one card of a positive-count outcome | `C18_draw_one` (with C10 for what `roll()` can return) |
 | accumulate / zero_fill / remove | `C18_accumulate_count`, `C18_accumulate_total`, `C18_zero_fill_count`, `C18_zero_fill_total`, `C18_remove_count` |
+| `zero_fill` never alters a distribution: the result is the same distribution and compares `==` to the original (C05's equality) | `C18_zero_fill_same_distribution`, `C18_zero_fill_eq` |
 -/
 namespace Dyce
 open List
@@ -93,6 +95,16 @@ theorem C18_zero_fill_count (h : Hist α) (outs : List α) (z : α) :
 
 theorem C18_zero_fill_total (h : Hist α) (outs : List α) : total (zeroFill le h outs) = total h :=
   zeroFill_total h outs
+
+theorem C18_zero_fill_same_distribution (h : Hist α) (outs : List α) :
+    SameDist (zeroFill le h outs) h := by
+  refine ⟨by rw [C18_zero_fill_total], fun z => ?_⟩
+  rw [C18_zero_fill_count, C18_zero_fill_total]
+
+theorem C18_zero_fill_eq (hle : TotalOrderB le) (h : Hist α) (ha : Asc le h) (outs : List α) :
+    eqH le (zeroFill le h outs) h = true :=
+  (eqH_iff_sameDist hle (by unfold zeroFill accumulate; exact asc_ofItems hle _) ha).mpr
+    (C18_zero_fill_same_distribution h outs)
 
 theorem C18_remove_count (h : Hist α) (o z : α) :
     countOf z (removeH le h o) = if z = o then 0 else countOf z h := remove_count h o z
